@@ -177,6 +177,45 @@ func (g *Gen) lineBlock(b *Block, depth int, n int) {
 				g.cover("lvl2-through-host-frames")
 				break
 			}
+			if g.R.Intn(3) == 0 {
+				// levels that name no Lua function: nothing is added to the message.
+				// The caller was replaced by a tail call, the level lies beyond the
+				// bottom of the stack, or the function is the body of a coroutine
+				raise := func(lvl int) *EFunc {
+					return Fn(nil, false, Blk(Local1(g.fresh("pad"), Num(1)), CallSN("error", Str("Enolevel"), Num(float64(lvl)))))
+				}
+				switch g.R.Intn(5) {
+				case 0: // tail-called: level 2 is the tail call
+					t, u := g.fresh("tc"), g.fresh("tu")
+					b.Stmts = append(b.Stmts, Local1(t, raise(2)),
+						Local1(u, Fn(nil, false, Blk(Local1(g.fresh("pad"), Num(1)), Return(Call(N(t)))))),
+						CallSN("emit", Str("lvl2-is-a-tail-call"), CallN("pcall", Fn(nil, false, Blk(Local1("r", Call(N(u))), Return(N("r")))))))
+				case 1: // called normally by a function that was tail-called: level 2 exists, level 3 does not
+					lvl := 2 + g.R.Intn(2)
+					t, u := g.fresh("tc"), g.fresh("tu")
+					b.Stmts = append(b.Stmts, Local1(t, raise(lvl)),
+						Local1(u, Fn(nil, false, Blk(Local1(g.fresh("pad"), Num(1)), Local1("r", Call(N(t))), Return(N("r"))))),
+						CallSN("emit", Str(fmt.Sprintf("lvl%d-below-a-tail-called-function", lvl)), CallN("pcall", Fn(nil, false, Blk(Return(Call(N(u))))))))
+				case 2: // the body of a coroutine has no caller
+					lvl := 2 + g.R.Intn(2)
+					if g.R.Intn(2) == 0 {
+						b.Stmts = append(b.Stmts, CallSN("emit", Str("coroutine-body-level"), Call(Dot(N("coroutine"), "resume"), Call(Dot(N("coroutine"), "create"), raise(lvl)))))
+					} else {
+						b.Stmts = append(b.Stmts, CallSN("emit", Str("coroutine-body-level"), CallN("pcall", Call(Dot(N("coroutine"), "wrap"), raise(lvl)))))
+					}
+				case 3: // a level far beyond the stack
+					b.Stmts = append(b.Stmts, CallSN("emit", Str("level-beyond-the-stack"), CallN("pcall", raise(30+g.R.Intn(50)))))
+				default: // several tail calls in a row, then level 1 (kept) and 2..4 (all tail calls)
+					lvl := 1 + g.R.Intn(4)
+					t, u, w := g.fresh("tc"), g.fresh("tu"), g.fresh("tw")
+					b.Stmts = append(b.Stmts, Local1(t, raise(lvl)),
+						Local1(u, Fn(nil, false, Blk(Return(Call(N(t)))))),
+						Local1(w, Fn(nil, false, Blk(Return(Call(N(u)))))),
+						CallSN("emit", Str(fmt.Sprintf("lvl%d-after-two-tail-calls", lvl)), CallN("pcall", Fn(nil, false, Blk(Return(Call(N(w))))))))
+				}
+				g.cover("level-names-no-function")
+				break
+			}
 			b.Stmts = append(b.Stmts, CallSN("emit", Str("lvl1"), CallN("pcall", Fn(nil, false, Blk(CallSN("error", Str("Edirect")))))))
 		case 7:
 			// function definition lines
